@@ -13,7 +13,52 @@
 //! truncall                                     parse every proper prefix of the base
 //! muts <seed> <count>                          parse <count> seeded byte mutations of the base
 //! raw <fmt> <opts> <hex>                       parse arbitrary bytes (stress inputs)
+//! big <fmt> <opts> <kind> <n>                  an input too long for a line (nesting, chains)
+//! aig19 <seed> <I> <L> <A> <O> <B> <C> <J> <F> <sym> <first|all>
+//!                                              an AIGER 1.9 problem built from the seed: I inputs,
+//!                                              L latches (reset absent / 0 / 1 / the latch itself),
+//!                                              A AND gates, O outputs, B bad, C constraints, justice
+//!                                              properties of the sizes J (`2,0,3` or `-`), F fairness
+//!                                              constraints, symbols (0 none, 1 some, 2 all incl.
+//!                                              repeated entries; i l o b c j f), comments; written
+//!                                              as aag (canonical numbers), as aag with permuted
+//!                                              variable numbers / unused numbers / shuffled AND
+//!                                              lines, and as aig; the aag and the aig become the
+//!                                              bases of `truncall` / `muts` / `usebase`
+//! bnd <fmt> <opts> <hex>                       a valid file with one numeric field (or a coupled
+//!                                              group) replaced by a boundary value
+//! latchinit <hex> <0|1|- per latch>            all latch reset values through the accessor
+//! dbgfmt <hex>                                 `{:?}` of the parsed problem (kf-candidate cases)
 //! ```
+//!
+//! AIGER 1.9 oracles (`aig19`): all three files parse; the aag and the aig parse to equal
+//! `Problem`s (`aag-aig-differ`, with the list of differing fields); independently of that, for
+//! each of the three parses every literal of every section (latch next-state functions, outputs,
+//! bad, constraints, every justice property, fairness) evaluates on all assignments of inputs and
+//! latches to what the generator's own evaluation of the model gives (`aiger19-section-wrong`),
+//! the counts are those written, names of every section and of inputs / latches are those written
+//! (`aiger19-names-wrong`), the reset value of the first latch is the one written
+//! (`aiger19-latch-init-wrong`; all latches with `all`: see the kf-candidates), `map_aiger_literal`
+//! maps every number of the file to the function of that variable, unused numbers to UNDEF
+//! (`aiger19-map-wrong`), accessors and `Debug` rendering agree, `Problem::simplify` keeps the
+//! functions of all sections.  The bad / constraint / justice / fairness literals and the fairness
+//! names have no accessor: they are read from the derived `Debug` rendering of `AIGERDetails`.
+//!
+//! Boundary values (`bnd`): 0, ±1, MIN/MAX of i32 u32 i64 u64 (= usize) and their neighbours, 2^31,
+//! 2^32, 2^63, 2^64, usize::MAX/16 (the largest count the parsers take) ± 1, Literal::MAX_INPUT ± 1,
+//! 30 digit numbers, leading zeros, signs, in every numeric field of DIMACS (`p cnf`, `p sat`,
+//! literals, `c <var>`, `c vo`, `c co`), NNF (header, `L`, `A`/`O`/`X` arities and children, the
+//! conflict variable, order lines) and AIGER (nine header counts, input / latch / reset / output /
+//! bad / constraint / justice count / justice / fairness / AND literals, symbol indices; for aig
+//! the deltas as 7-bit integers incl. over-long and truncated ones).  Oracle: a problem or a
+//! diagnostic (the harness is built with overflow checks), and every accepted problem is
+//! consistent in itself (`sanity`: all literals name existing inputs / gates, counts fit, names
+//! lists empty or complete, variable order a permutation; signature `parsed-problem-insane`;
+//! applied to every accepted input of the stream, also mutations and prefixes).
+//!
+//! kf-candidates (`gen --kf-candidates 1`, off by default): dedicated cases `kf-candidate-…` for
+//! defects of the unchanged code that are not (yet) listed findings: the latch reset values
+//! (`TVBitVec`) and the recursion of `Circuit::find_cycle`.
 //!
 //! Oracles: a valid file parses (`ok`), the parsed circuit evaluates to the expected truth
 //! table(s), so does `Problem::simplify` of it; ASCII and binary AIGER parse to equal `Problem`s;
@@ -29,7 +74,7 @@
 //! part that fails *and* falls into one of the narrowly defined classes is counted in the
 //! statistics ("known class … tolerated") instead of reported; every other failure is reported.
 //! Inside a kf case a failure of a different class gets the signature `parser-failure-unexpected`.
-use oxidd_parser::{Circuit, GateKind, Literal, ParseOptions, ParseOptionsBuilder, Problem, ProblemDetails};
+use oxidd_parser::{AIGERDetails, Circuit, GateKind, Literal, ParseOptions, ParseOptionsBuilder, Problem, ProblemDetails};
 use oxv::*;
 use std::collections::BTreeMap;
 use std::io::Write;
@@ -87,6 +132,8 @@ enum Verdict {
     /// only from the child process: killed by a signal (abort, stack overflow, out of memory)
     Abort,
     Hang,
+    /// a problem was returned that is not consistent in itself (see `sanity`)
+    Insane,
 }
 
 /// everything that is run on one input, in-process: the parser, the diagnostic path of
@@ -101,6 +148,11 @@ fn run_all_in_process(fmt: Fmt, opts: u32, input: &[u8], tmp: &std::path::Path, 
         Ok(None) => (Verdict::Diag, None),
         Err(e) => return (Verdict::Panic, None, format!("parser: {}", panic_msg(&e))),
     };
+    if let Some(q) = &p {
+        if let Err(m) = sanity_guarded(q) {
+            return (Verdict::Insane, None, format!("accepted, but the problem is inconsistent: {}", m));
+        }
+    }
     if let (Some(p), true) = (&p, with_simplify) {
         let r = catch_unwind(AssertUnwindSafe(|| p.simplify().is_ok()));
         if let Err(e) = r {
@@ -148,9 +200,15 @@ unsafe extern "C" {
 }
 const RLIMIT_AS: i32 = 9; // Linux
 
-/// `c18_parsers --one-input <fmt> <opts> <path>`: exit 0 = problem, 1 = diagnostic, 101 = panic
+/// address space of the child process in MB (boundary value inputs: `BOUNDS_CHILD_MEM_MB`)
+const CHILD_MEM_MB: u64 = 3072;
+const BOUNDS_CHILD_MEM_MB: u64 = 256;
+
+/// `c18_parsers --one-input <fmt> <opts> <path> [<MB>]`: exit 0 = problem, 1 = diagnostic, 101 = panic,
+/// 4 = inconsistent problem
 fn child_main(args: &[String]) -> ! {
-    let lim = RLimit { cur: 3 << 30, max: 3 << 30 };
+    let mb: u64 = args.get(5).and_then(|s| s.parse().ok()).unwrap_or(CHILD_MEM_MB);
+    let lim = RLimit { cur: mb << 20, max: mb << 20 };
     unsafe {
         setrlimit(RLIMIT_AS, &lim);
     }
@@ -158,15 +216,19 @@ fn child_main(args: &[String]) -> ! {
     let opts: u32 = args[3].parse().unwrap();
     let input = std::fs::read(&args[4]).unwrap();
     let tmp = std::env::temp_dir();
-    let (v, _, _) = run_all_in_process(fmt, opts, &input, &tmp, false);
+    let (v, _, msg) = run_all_in_process(fmt, opts, &input, &tmp, false);
     std::process::exit(match v {
         Verdict::Ok => 0,
         Verdict::Diag => 1,
+        Verdict::Insane => {
+            eprintln!("{}", msg);
+            4
+        }
         _ => 101,
     })
 }
 
-fn run_in_child(fmt: Fmt, opts: u32, input: &[u8], tmp: &std::path::Path) -> (Verdict, String) {
+fn run_in_child(fmt: Fmt, opts: u32, input: &[u8], tmp: &std::path::Path, mem_mb: u64) -> (Verdict, String) {
     use std::process::{Command, Stdio};
     let exe = std::env::current_exe().unwrap();
     let path = tmp.join("one-input.bin");
@@ -176,6 +238,10 @@ fn run_in_child(fmt: Fmt, opts: u32, input: &[u8], tmp: &std::path::Path) -> (Ve
     let mut ch = match Command::new(exe)
         .args(["--one-input", fmt_name(fmt), &opts.to_string()])
         .arg(&path)
+        .arg(mem_mb.to_string())
+        // (only the first line of a panic / abort message is used; symbolising a backtrace costs
+        // 80 ms per failing child)
+        .env("RUST_BACKTRACE", "0")
         .stdin(Stdio::null())
         .stdout(Stdio::null())
         .stderr(Stdio::piped())
@@ -185,6 +251,7 @@ fn run_in_child(fmt: Fmt, opts: u32, input: &[u8], tmp: &std::path::Path) -> (Ve
         Err(e) => return (Verdict::Hang, format!("cannot spawn child: {}", e)),
     };
     let t0 = std::time::Instant::now();
+    let mut polls = 0u32;
     loop {
         match ch.try_wait() {
             Ok(Some(st)) => {
@@ -201,6 +268,7 @@ fn run_in_child(fmt: Fmt, opts: u32, input: &[u8], tmp: &std::path::Path) -> (Ve
                     Some(0) => (Verdict::Ok, String::new()),
                     Some(1) => (Verdict::Diag, String::new()),
                     Some(101) => (Verdict::Panic, format!("panic in the child process: {}", err)),
+                    Some(4) => (Verdict::Insane, err),
                     Some(c) => (Verdict::Abort, format!("child exited with status {}: {}", c, err)),
                     None => (Verdict::Abort, format!("child killed by a signal ({}): {}", st, err)),
                 };
@@ -211,7 +279,9 @@ fn run_in_child(fmt: Fmt, opts: u32, input: &[u8], tmp: &std::path::Path) -> (Ve
                     let _ = ch.wait();
                     return (Verdict::Hang, "child did not finish within 20 s".into());
                 }
-                std::thread::sleep(std::time::Duration::from_millis(2));
+                // (a child that only parses a short input is done within a millisecond)
+                polls += 1;
+                std::thread::sleep(std::time::Duration::from_micros(if polls <= 40 { 150 } else { 2000 }));
             }
             Err(e) => return (Verdict::Hang, format!("wait failed: {}", e)),
         }
@@ -254,6 +324,8 @@ fn known_class(opts: u32, input: &[u8], v: Verdict, in_child: bool, msg: &str) -
         Verdict::Abort if in_child && has_long_number(input) && msg.contains("memory allocation of") => Some("alloc"),
         // recursion depth = nesting depth of the input
         Verdict::Abort if in_child && deeply_nested(input) && msg.contains("overflowed its stack") => Some("deep-nesting"),
+        // recursion depth = length of a chain of gates (Circuit::find_cycle recurses per gate)
+        Verdict::Abort if in_child && msg.contains("overflowed its stack") && input.iter().filter(|&&b| b == b'\n').count() > 50000 => Some("deep-chain"),
         // `max_clause.1 != num_clauses.1 - 1` with a clause tree and `p cnf <n> 0`
         Verdict::Panic
             if !msg.starts_with("load_file:")
@@ -346,6 +418,686 @@ fn truth_tables(p: &Problem, nvars: usize) -> Option<String> {
     Some(s)
 }
 
+// ------------------------------------------------------------------ sanity of accepted problems
+
+/// does the literal name something that exists in the circuit?
+fn lit_in_range(c: &Circuit, l: Literal) -> bool {
+    if l == Literal::FALSE || l == Literal::TRUE {
+        return true;
+    }
+    if let Some(g) = l.get_gate_no() {
+        return g < c.num_gates();
+    }
+    match l.get_input() {
+        Some(i) => i < c.inputs().len(),
+        None => false,
+    }
+}
+
+/// The number of latches up to which the latch reset values are read (accessor and `Debug`).
+/// `TVBitVec` keeps all values in its first block: index 16 is out of bounds (kf-candidate
+/// `latch-init-17`), so problems with more latches are only checked through the other accessors.
+const MAX_LATCHES_FOR_DEBUG: usize = 16;
+
+/// Basic consistency of a problem a parser accepted: every literal of every gate and of every
+/// section names an input or gate that exists, the counts fit together, the names lists are empty
+/// or as long as their section, the accessors agree with the `Debug` rendering.
+fn sanity(p: &Problem) -> Result<(), String> {
+    let c = &p.circuit;
+    let dims = format!("({} inputs, {} gates)", c.inputs().len(), c.num_gates());
+    for g in 0..c.num_gates() {
+        let Some(gate) = c.gate_for_no(g) else {
+            return Err(format!("gate {} is not accessible {}", g, dims));
+        };
+        for &x in gate.inputs {
+            if !lit_in_range(c, x) {
+                return Err(format!("gate {} has the input {:?}, which is not in the circuit {}", g, x, dims));
+            }
+        }
+    }
+    if let Some(order) = c.inputs().order() {
+        if !order.is_empty() {
+            let mut o = order.to_vec();
+            o.sort_unstable();
+            if o.len() != c.inputs().len() || o.iter().enumerate().any(|(k, &v)| k != v) {
+                return Err(format!("the variable order is not a permutation of 0..{}", c.inputs().len()));
+            }
+        }
+    }
+    match &p.details {
+        ProblemDetails::Root(l) => {
+            if !lit_in_range(c, *l) {
+                return Err(format!("the root {:?} is not in the circuit {}", l, dims));
+            }
+        }
+        ProblemDetails::AIGER(a) => {
+            if a.inputs() + a.latches().len() != c.inputs().len() {
+                return Err(format!("{} inputs + {} latches, but the circuit has {} inputs", a.inputs(), a.latches().len(), c.inputs().len()));
+            }
+            for (name, list) in [("latches", a.latches()), ("outputs", a.outputs())] {
+                for (k, &l) in list.iter().enumerate() {
+                    if !lit_in_range(c, l) {
+                        return Err(format!("{}[{}] = {:?} is not in the circuit {}", name, k, l, dims));
+                    }
+                }
+            }
+            if a.latches().len() <= MAX_LATCHES_FOR_DEBUG {
+                let s = sections(a)?;
+                s.agrees_with_accessors(a)?;
+                let flat_just: Vec<Literal> = s.justice.iter().flatten().copied().collect();
+                for (name, list) in [("bad", &s.bad), ("invariants", &s.invariants), ("justice", &flat_just), ("fairness", &s.fairness)] {
+                    for (k, &l) in list.iter().enumerate() {
+                        if !lit_in_range(c, l) {
+                            return Err(format!("{}[{}] = {:?} is not in the circuit {}", name, k, l, dims));
+                        }
+                    }
+                }
+                let lens = [s.outputs.len(), s.bad.len(), s.invariants.len(), s.justice.len(), s.fairness.len()];
+                for (k, name) in SECTION_NAMES.iter().enumerate() {
+                    if !s.names[k].is_empty() && s.names[k].len() != lens[k] {
+                        return Err(format!("{} names for {} {} entries", s.names[k].len(), lens[k], name));
+                    }
+                }
+            }
+        }
+    }
+    Ok(())
+}
+fn sanity_guarded(p: &Problem) -> Result<(), String> {
+    match catch_unwind(AssertUnwindSafe(|| sanity(p))) {
+        Ok(r) => r,
+        Err(e) => Err(format!("panic while reading the accepted problem: {}", panic_msg(&e))),
+    }
+}
+
+// ------------------------------------------------------------------ reading `AIGERDetails`
+//
+// `AIGERDetails` has accessors for the latches, the outputs and the names of outputs / bad /
+// invariants / justice only; the bad, invariant, justice and fairness literals (and the fairness
+// names) are read from the derived `Debug` rendering, which lists every field.
+
+#[derive(Debug, Clone, PartialEq)]
+enum Dv {
+    Atom(String),
+    Str(String),
+    List(Vec<Dv>),
+    Struct(Vec<(String, Dv)>),
+    Tuple(String, Vec<Dv>),
+}
+struct DvRd<'a> {
+    s: &'a str,
+    pos: usize,
+}
+impl DvRd<'_> {
+    fn peek(&self) -> Option<char> {
+        self.s[self.pos..].chars().next()
+    }
+    fn bump(&mut self) {
+        if let Some(c) = self.peek() {
+            self.pos += c.len_utf8();
+        }
+    }
+    fn ws(&mut self) {
+        while matches!(self.peek(), Some(' ') | Some('\n')) {
+            self.bump()
+        }
+    }
+    fn eat(&mut self, c: char) -> bool {
+        self.ws();
+        if self.peek() == Some(c) {
+            self.bump();
+            true
+        } else {
+            false
+        }
+    }
+    /// values up to the closing character, separated by commas
+    fn seq(&mut self, close: char, depth: u32) -> Option<Vec<Dv>> {
+        let mut v = Vec::new();
+        loop {
+            if self.eat(close) {
+                return Some(v);
+            }
+            v.push(self.value(depth + 1)?);
+            if !self.eat(',') {
+                return if self.eat(close) { Some(v) } else { None };
+            }
+        }
+    }
+    fn value(&mut self, depth: u32) -> Option<Dv> {
+        if depth > 40 {
+            return None;
+        }
+        self.ws();
+        match self.peek()? {
+            '[' => {
+                self.bump();
+                Some(Dv::List(self.seq(']', depth)?))
+            }
+            '"' => {
+                self.bump();
+                let mut out = String::new();
+                loop {
+                    let c = self.peek()?;
+                    self.bump();
+                    match c {
+                        '"' => break,
+                        '\\' => {
+                            let e = self.peek()?;
+                            self.bump();
+                            match e {
+                                'n' => out.push('\n'),
+                                't' => out.push('\t'),
+                                'r' => out.push('\r'),
+                                '0' => out.push('\0'),
+                                'u' => {
+                                    if self.peek()? != '{' {
+                                        return None;
+                                    }
+                                    self.bump();
+                                    let st = self.pos;
+                                    while self.peek()? != '}' {
+                                        self.bump();
+                                    }
+                                    out.push(char::from_u32(u32::from_str_radix(&self.s[st..self.pos], 16).ok()?)?);
+                                    self.bump();
+                                }
+                                e => out.push(e),
+                            }
+                        }
+                        c => out.push(c),
+                    }
+                }
+                Some(Dv::Str(out))
+            }
+            _ => {
+                let st = self.pos;
+                while let Some(c) = self.peek() {
+                    if ",]})({ \n".contains(c) {
+                        break;
+                    }
+                    self.bump();
+                }
+                let atom = self.s[st..self.pos].to_string();
+                if atom.is_empty() {
+                    return None;
+                }
+                if self.peek() == Some('(') {
+                    self.bump();
+                    return Some(Dv::Tuple(atom, self.seq(')', depth)?));
+                }
+                if self.s[self.pos..].starts_with(" {") {
+                    self.pos += 2;
+                    let mut f = Vec::new();
+                    loop {
+                        if self.eat('}') {
+                            break;
+                        }
+                        self.ws();
+                        let st = self.pos;
+                        while self.peek()? != ':' {
+                            self.bump();
+                        }
+                        let name = self.s[st..self.pos].to_string();
+                        self.bump();
+                        f.push((name, self.value(depth + 1)?));
+                        if !self.eat(',') {
+                            if self.eat('}') {
+                                break;
+                            }
+                            return None;
+                        }
+                    }
+                    return Some(Dv::Struct(f));
+                }
+                Some(Dv::Atom(atom))
+            }
+        }
+    }
+}
+
+/// the `Display` form of a literal back to the literal
+fn lit_of_atom(a: &str) -> Option<Literal> {
+    match a {
+        "⊥" => return Some(Literal::FALSE),
+        "⊤" => return Some(Literal::TRUE),
+        "+U" => return Some(Literal::UNDEF),
+        "-U" => return Some(!Literal::UNDEF),
+        _ => {}
+    }
+    let mut ch = a.chars();
+    let neg = match ch.next()? {
+        '+' => false,
+        '-' => true,
+        _ => return None,
+    };
+    let kind = ch.next()?;
+    let n: usize = ch.as_str().parse().ok()?;
+    match kind {
+        'i' if n <= Literal::MAX_INPUT => Some(Literal::from_input(neg, n)),
+        'g' if n <= Literal::MAX_GATE => Some(Literal::from_gate(neg, n)),
+        _ => None,
+    }
+}
+
+const SECTION_NAMES: [&str; 5] = ["outputs", "bad", "invariants", "justice", "fairness"];
+
+/// every field of an `AIGERDetails`
+#[derive(Debug, Clone, PartialEq, Default)]
+struct Sections {
+    inputs: usize,
+    latches: Vec<Literal>,
+    init: Vec<Option<bool>>,
+    outputs: Vec<Literal>,
+    bad: Vec<Literal>,
+    invariants: Vec<Literal>,
+    justice: Vec<Vec<Literal>>,
+    fairness: Vec<Literal>,
+    map: Vec<Literal>,
+    /// names of outputs, bad, invariants, justice, fairness (see `SECTION_NAMES`)
+    names: [Vec<Option<String>>; 5],
+}
+
+fn sections(a: &AIGERDetails) -> Result<Sections, String> {
+    let text = format!("{:?}", a);
+    let bad = |what: &str| format!("Debug rendering of AIGERDetails not understood ({}): {}", what, text.chars().take(400).collect::<String>());
+    let mut rd = DvRd { s: &text, pos: 0 };
+    let Some(Dv::Struct(fields)) = rd.value(0) else {
+        return Err(bad("not a struct"));
+    };
+    let get = |n: &str| fields.iter().find(|(k, _)| k.trim() == n).map(|x| &x.1).ok_or_else(|| bad(&format!("no field {}", n)));
+    let lits = |n: &str, v: &Dv| -> Result<Vec<Literal>, String> {
+        let Dv::List(xs) = v else {
+            return Err(bad(&format!("{} is not a list", n)));
+        };
+        xs.iter()
+            .map(|x| match x {
+                Dv::Atom(a) => lit_of_atom(a).ok_or_else(|| bad(&format!("literal {:?} in {}", a, n))),
+                _ => Err(bad(&format!("element of {}", n))),
+            })
+            .collect()
+    };
+    let names = |n: &str| -> Result<Vec<Option<String>>, String> {
+        let Dv::List(xs) = get(n)? else {
+            return Err(bad(&format!("{} is not a list", n)));
+        };
+        xs.iter()
+            .map(|x| match x {
+                Dv::Atom(a) if a == "None" => Ok(None),
+                Dv::Tuple(t, v) if t == "Some" && v.len() == 1 => match &v[0] {
+                    Dv::Str(s) => Ok(Some(s.clone())),
+                    _ => Err(bad(&format!("name in {}", n))),
+                },
+                _ => Err(bad(&format!("element of {}", n))),
+            })
+            .collect()
+    };
+    let inputs = match get("inputs")? {
+        Dv::Atom(a) => a.parse::<usize>().map_err(|_| bad("inputs"))?,
+        _ => return Err(bad("inputs")),
+    };
+    let init = match get("latch_init_values")? {
+        Dv::List(xs) => xs
+            .iter()
+            .map(|x| match x {
+                Dv::Atom(a) if a == "-" => Ok(None),
+                Dv::Atom(a) if a == "0" => Ok(Some(false)),
+                Dv::Atom(a) if a == "1" => Ok(Some(true)),
+                _ => Err(bad("latch_init_values element")),
+            })
+            .collect::<Result<Vec<_>, _>>()?,
+        _ => return Err(bad("latch_init_values")),
+    };
+    let justice = match get("justice")? {
+        Dv::List(xs) => xs.iter().map(|x| lits("justice", x)).collect::<Result<Vec<_>, _>>()?,
+        _ => return Err(bad("justice")),
+    };
+    Ok(Sections {
+        inputs,
+        latches: lits("latches", get("latches")?)?,
+        init,
+        outputs: lits("outputs", get("outputs")?)?,
+        bad: lits("bad", get("bad")?)?,
+        invariants: lits("invariants", get("invariants")?)?,
+        justice,
+        fairness: lits("fairness", get("fairness")?)?,
+        map: lits("map", get("map")?)?,
+        names: [names("output_names")?, names("bad_names")?, names("invariant_names")?, names("justice_names")?, names("fairness_names")?],
+    })
+}
+
+impl Sections {
+    /// what the accessors return is what `Debug` shows
+    fn agrees_with_accessors(&self, a: &AIGERDetails) -> Result<(), String> {
+        if self.inputs != a.inputs() || self.latches != a.latches() || self.outputs != a.outputs() {
+            return Err(format!("inputs()/latches()/outputs() = {} {:?} {:?} but Debug shows {} {:?} {:?}", a.inputs(), a.latches(), a.outputs(), self.inputs, self.latches, self.outputs));
+        }
+        if self.init.len() != self.latches.len() {
+            return Err(format!("{} latch reset values for {} latches", self.init.len(), self.latches.len()));
+        }
+        for k in 0..self.latches.len() {
+            if a.latch_init_value(k) != self.init[k] {
+                return Err(format!("latch_init_value({}) = {:?} but Debug shows {:?}", k, a.latch_init_value(k), self.init[k]));
+            }
+        }
+        for (k, &l) in self.map.iter().enumerate() {
+            if a.map_aiger_literal(2 * k) != Some(l) || a.map_aiger_literal(2 * k + 1) != Some(!l) {
+                return Err(format!("map_aiger_literal({}) = {:?} but the map in Debug has {:?}", 2 * k, a.map_aiger_literal(2 * k), l));
+            }
+        }
+        if a.map_aiger_literal(2 * self.map.len()).is_some() {
+            return Err(format!("map_aiger_literal({}) is defined beyond the map of length {}", 2 * self.map.len(), self.map.len()));
+        }
+        let lens = [self.outputs.len(), self.bad.len(), self.invariants.len(), self.justice.len()];
+        for (s, len) in lens.iter().enumerate() {
+            for k in 0..*len + 1 {
+                let acc = match s {
+                    0 => a.output_name(k),
+                    1 => a.bad_name(k),
+                    2 => a.invariant_name(k),
+                    _ => a.justice_name(k),
+                };
+                let dbg = self.names[s].get(k).and_then(|x| x.as_deref());
+                if acc != dbg {
+                    return Err(format!("name accessor of {}[{}] = {:?} but Debug shows {:?}", SECTION_NAMES[s], k, acc, dbg));
+                }
+            }
+        }
+        Ok(())
+    }
+    /// the fields in which two parses differ
+    fn diff(&self, o: &Sections) -> Vec<&'static str> {
+        let mut d = Vec::new();
+        let mut add = |c: bool, n: &'static str| {
+            if c {
+                d.push(n)
+            }
+        };
+        add(self.inputs != o.inputs, "inputs");
+        add(self.latches != o.latches, "latches");
+        add(self.init != o.init, "latch_init_values");
+        add(self.outputs != o.outputs, "outputs");
+        add(self.bad != o.bad, "bad");
+        add(self.invariants != o.invariants, "invariants");
+        add(self.justice != o.justice, "justice");
+        add(self.fairness != o.fairness, "fairness");
+        add(self.map != o.map, "map");
+        add(self.names != o.names, "names");
+        d
+    }
+}
+
+// ------------------------------------------------------------------ AIGER 1.9 problems
+//
+// One model (canonical numbering: inputs 1..I, latches I+1..I+L, AND gates after them in
+// topological order, right-hand sides ordered) is written three times: as `aag` with the canonical
+// numbers, as `aag` with permuted variable numbers, unused numbers, shuffled AND lines and swapped
+// right-hand sides, and as `aig`.  The model is rebuilt from the seed and the shape on the
+// operation line.
+
+#[derive(Clone, Debug)]
+struct Shape {
+    i: usize,
+    l: usize,
+    a: usize,
+    o: usize,
+    b: usize,
+    c: usize,
+    j: Vec<usize>,
+    f: usize,
+    /// 0 no symbol table, 1 some entries, 2 an entry for everything (and some twice)
+    sym: u32,
+}
+
+#[derive(Clone, Copy, PartialEq, Eq, Debug)]
+enum Reset {
+    Absent,
+    Zero,
+    One,
+    Own,
+}
+
+struct A19 {
+    sh: Shape,
+    /// right-hand sides (canonical literals), rhs0 >= rhs1, both below the gate's own literal
+    gates: Vec<(usize, usize)>,
+    latch: Vec<(usize, Reset)>,
+    out: Vec<usize>,
+    bad: Vec<usize>,
+    inv: Vec<usize>,
+    just: Vec<Vec<usize>>,
+    fair: Vec<usize>,
+    /// symbol table entries in file order: kind (i l o b c j f), index, name
+    syms: Vec<(char, usize, String)>,
+    comment: Option<String>,
+    /// how many of the optional header counts B C J F are written
+    hdr_opt: usize,
+}
+
+const SYM_NAMES: &[&str] = &["x", "y1", "a b", "~reset", "out[3]", "ü⊤", "two  spaces", "0", "c", "i0", "l1 z", "-", "\"q\"", "back\\slash", "tab\there", "justice_0", "AG(!bad)", "c1 c", "f"];
+
+impl A19 {
+    fn build(seed: u64, sh: &Shape) -> A19 {
+        let mut rng = Rng::new(seed);
+        let m = sh.i + sh.l + sh.a;
+        let first_and = sh.i + sh.l + 1;
+        let mut gates = Vec::new();
+        for k in 0..sh.a {
+            let lhs = 2 * (first_and + k) as u64;
+            // now and then a deep chain: the previous variable
+            let x = if rng.chance(1, 3) && lhs >= 4 { lhs - 2 + rng.below(2) } else { rng.below(lhs) } as usize;
+            let y = rng.below(lhs) as usize;
+            gates.push((x.max(y), x.min(y)));
+        }
+        let lit = |rng: &mut Rng| rng.below(2 * (m as u64 + 1)) as usize;
+        let forms = [Reset::Absent, Reset::Zero, Reset::One, Reset::Own];
+        let base = rng.below(4) as usize;
+        let latch = (0..sh.l).map(|k| (lit(&mut rng), if rng.chance(3, 4) { forms[(base + k) % 4] } else { *rng.pick(&forms) })).collect();
+        let out = (0..sh.o).map(|_| lit(&mut rng)).collect();
+        let bad = (0..sh.b).map(|_| lit(&mut rng)).collect();
+        let inv = (0..sh.c).map(|_| lit(&mut rng)).collect();
+        let just = sh.j.iter().map(|&n| (0..n).map(|_| lit(&mut rng)).collect()).collect();
+        let fair = (0..sh.f).map(|_| lit(&mut rng)).collect();
+        let mut syms = Vec::new();
+        if sh.sym > 0 {
+            for (kind, n) in [('i', sh.i), ('l', sh.l), ('o', sh.o), ('b', sh.b), ('c', sh.c), ('j', sh.j.len()), ('f', sh.f)] {
+                for k in 0..n {
+                    if sh.sym == 2 || rng.chance(1, 2) {
+                        syms.push((kind, k, rng.pick(SYM_NAMES).to_string()));
+                        if sh.sym == 2 && rng.chance(1, 5) {
+                            // a second entry for the same thing: the names are joined
+                            syms.push((kind, k, rng.pick(SYM_NAMES).to_string()));
+                        }
+                    }
+                }
+            }
+            if rng.chance(1, 3) {
+                rng.shuffle(&mut syms);
+            }
+        }
+        let comment = match rng.below(4) {
+            0 => Some("c\nsome comment\ni0 not a symbol\n".to_string()),
+            1 => Some("c text on the first line\n\n\x01\u{ff}binary rubbish".to_string()),
+            _ => None,
+        };
+        let need = if sh.f > 0 { 4 } else if !sh.j.is_empty() { 3 } else if sh.c > 0 { 2 } else if sh.b > 0 { 1 } else { 0 };
+        let hdr_opt = need + rng.below(5 - need as u64) as usize;
+        A19 { sh: sh.clone(), gates, latch, out, bad, inv, just, fair, syms, comment, hdr_opt }
+    }
+    fn m(&self) -> usize {
+        self.sh.i + self.sh.l + self.sh.a
+    }
+    /// value of a canonical literal under an assignment of inputs and latch outputs
+    fn eval(&self, lit: usize, asg: u32) -> bool {
+        let nv = self.sh.i + self.sh.l;
+        let mut vals = vec![false; self.m() + 1];
+        for v in 1..=nv {
+            vals[v] = ((asg >> (v - 1)) & 1) != 0;
+        }
+        for (k, (x, y)) in self.gates.iter().enumerate() {
+            vals[nv + 1 + k] = (vals[x / 2] ^ (x % 2 == 1)) && (vals[y / 2] ^ (y % 2 == 1));
+        }
+        vals[lit / 2] ^ (lit % 2 == 1)
+    }
+    fn tt(&self, lit: usize) -> String {
+        (0..(1u32 << (self.sh.i + self.sh.l))).map(|a| if self.eval(lit, a) { '1' } else { '0' }).collect()
+    }
+    fn expected_init(&self) -> Vec<Option<bool>> {
+        self.latch.iter().map(|x| match x.1 { Reset::Absent | Reset::Zero => Some(false), Reset::One => Some(true), Reset::Own => None }).collect()
+    }
+    /// expected names of kind `kind`: `n` entries, several symbol entries are joined by a space
+    fn expected_names(&self, kind: char, n: usize) -> Vec<Option<String>> {
+        let mut v: Vec<Option<String>> = vec![None; n];
+        for (k, idx, name) in &self.syms {
+            if *k == kind {
+                v[*idx] = Some(match v[*idx].take() {
+                    Some(old) => format!("{} {}", old, name),
+                    None => name.clone(),
+                });
+            }
+        }
+        v
+    }
+    fn header(&self, magic: &str, mfile: usize) -> Vec<String> {
+        let mut h = vec![magic.to_string(), mfile.to_string(), self.sh.i.to_string(), self.sh.l.to_string(), self.sh.o.to_string(), self.sh.a.to_string()];
+        for n in [self.sh.b, self.sh.c, self.sh.j.len(), self.sh.f].iter().take(self.hdr_opt) {
+            h.push(n.to_string());
+        }
+        h
+    }
+    /// the lines of the property sections (outputs, bad, constraints, justice, fairness)
+    fn section_lines(&self, tl: &dyn Fn(usize) -> usize) -> Vec<Vec<String>> {
+        let mut ls: Vec<Vec<String>> = Vec::new();
+        for x in self.out.iter().chain(&self.bad).chain(&self.inv) {
+            ls.push(vec![tl(*x).to_string()]);
+        }
+        for js in &self.just {
+            ls.push(vec![js.len().to_string()]);
+        }
+        for x in self.just.iter().flatten().chain(&self.fair) {
+            ls.push(vec![tl(*x).to_string()]);
+        }
+        ls
+    }
+    fn tail(&self, out: &mut Vec<u8>, st: &LineStyle, rng: &mut Rng) {
+        for (kind, idx, name) in &self.syms {
+            out.extend_from_slice(format!("{}{}{}{}", kind, idx, if rng.chance(1, 8) { "\t" } else { " " }, name).as_bytes());
+            if rng.chance(1, 6) {
+                out.extend_from_slice(b" \t");
+            }
+            out.extend_from_slice(st.eol.as_bytes());
+        }
+        if let Some(c) = &self.comment {
+            // (the text contains a byte that is not UTF-8 on purpose)
+            out.extend(c.chars().map(|ch| if (ch as u32) < 256 { ch as u32 as u8 } else { b'?' }));
+        }
+    }
+    /// ASCII; returns the file, the map canonical variable -> variable number in the file, and M
+    fn render_aag(&self, rng: &mut Rng, renumber: bool) -> (Vec<u8>, Vec<usize>, usize) {
+        let mc = self.m();
+        let (pi, mfile): (Vec<usize>, usize) = if renumber {
+            let mfile = mc + rng.below(4) as usize;
+            let mut slots: Vec<usize> = (1..=mfile).collect();
+            rng.shuffle(&mut slots);
+            let mut pi = vec![0];
+            pi.extend_from_slice(&slots[..mc]);
+            (pi, mfile)
+        } else {
+            ((0..=mc).collect(), mc)
+        };
+        let tl = |x: usize| 2 * pi[x / 2] + (x & 1);
+        let st = LineStyle::pick(rng);
+        let mut out = Vec::new();
+        st.line(&mut out, &self.header("aag", mfile), rng);
+        for k in 0..self.sh.i {
+            st.line(&mut out, &[tl(2 * (k + 1)).to_string()], rng);
+        }
+        for (k, (next, reset)) in self.latch.iter().enumerate() {
+            let own = tl(2 * (self.sh.i + 1 + k));
+            let mut t = vec![own.to_string(), tl(*next).to_string()];
+            match reset {
+                Reset::Absent => {}
+                Reset::Zero => t.push("0".into()),
+                Reset::One => t.push("1".into()),
+                Reset::Own => t.push(own.to_string()),
+            }
+            st.line(&mut out, &t, rng);
+        }
+        for l in self.section_lines(&tl) {
+            st.line(&mut out, &l, rng);
+        }
+        let mut order: Vec<usize> = (0..self.sh.a).collect();
+        if renumber {
+            rng.shuffle(&mut order);
+        }
+        for k in order {
+            let (x, y) = self.gates[k];
+            let (x, y) = if renumber && rng.chance(1, 2) { (y, x) } else { (x, y) };
+            st.line(&mut out, &[tl(2 * (self.sh.i + self.sh.l + 1 + k)).to_string(), tl(x).to_string(), tl(y).to_string()], rng);
+        }
+        self.tail(&mut out, &st, rng);
+        if self.comment.is_none() && st.eol == "\n" && out.last() == Some(&b'\n') && rng.chance(1, 6) {
+            out.pop(); // the last line may end with the file
+        }
+        (out, pi, mfile)
+    }
+    fn render_aig(&self, rng: &mut Rng) -> Vec<u8> {
+        let st = LineStyle::pick(rng);
+        let mut out = Vec::new();
+        st.line(&mut out, &self.header("aig", self.m()), rng);
+        for (k, (next, reset)) in self.latch.iter().enumerate() {
+            let mut t = vec![next.to_string()];
+            match reset {
+                Reset::Absent => {}
+                Reset::Zero => t.push("0".into()),
+                Reset::One => t.push("1".into()),
+                Reset::Own => t.push((2 * (self.sh.i + 1 + k)).to_string()),
+            }
+            st.line(&mut out, &t, rng);
+        }
+        for l in self.section_lines(&|x| x) {
+            st.line(&mut out, &l, rng);
+        }
+        for (k, (x, y)) in self.gates.iter().enumerate() {
+            let lhs = 2 * (self.sh.i + self.sh.l + 1 + k);
+            enc7(lhs - x, &mut out);
+            enc7(x - y, &mut out);
+        }
+        self.tail(&mut out, &st, rng);
+        out
+    }
+}
+
+/// white space the parsers accept: tabs or several blanks between numbers, blanks before the end
+/// of a line, CR LF
+struct LineStyle {
+    eol: &'static str,
+    loose: bool,
+}
+impl LineStyle {
+    fn pick(rng: &mut Rng) -> LineStyle {
+        LineStyle { eol: if rng.chance(1, 8) { "\r\n" } else { "\n" }, loose: rng.chance(1, 4) }
+    }
+    fn line(&self, out: &mut Vec<u8>, toks: &[String], rng: &mut Rng) {
+        for (k, t) in toks.iter().enumerate() {
+            if k > 0 {
+                out.extend_from_slice(if self.loose && rng.chance(1, 3) { if rng.chance(1, 2) { b"\t" } else { b"  " } } else { b" " });
+            }
+            out.extend_from_slice(t.as_bytes());
+        }
+        if self.loose && rng.chance(1, 4) {
+            out.extend_from_slice(if rng.chance(1, 2) { b" " } else { b"\t " });
+        }
+        out.extend_from_slice(self.eol.as_bytes());
+    }
+}
+
+/// text of a file for a failure message
+fn show_bytes(b: &[u8]) -> String {
+    let printable = b.iter().all(|&c| c == b'\n' || c == b'\r' || c == b'\t' || (0x20..0x7f).contains(&c));
+    if printable { format!("{:?}", String::from_utf8_lossy(b)) } else { format!("hex:{}", hex(b)) }
+}
+
 // ------------------------------------------------------------------ scenario
 
 struct Parsers {
@@ -354,6 +1106,9 @@ struct Parsers {
     fmt: Fmt,
     opts: u32,
     tmp: std::path::PathBuf,
+    /// parse the next inputs in a child process whatever they look like
+    force_child: bool,
+    child_mem_mb: u64,
 }
 
 fn hex(b: &[u8]) -> String {
@@ -381,10 +1136,10 @@ impl Parsers {
     /// parse one input under every guard; report panics / aborts / hangs
     fn check(&self, what: &str, input: &[u8], ctx: &mut Ctx) -> Verdict {
         ctx.count("inputs");
-        let in_child = risky(input);
+        let in_child = risky(input) || self.force_child;
         let (v, msg) = if in_child {
             ctx.count("inputs parsed in a child process");
-            run_in_child(self.fmt, self.opts, input, &self.tmp)
+            run_in_child(self.fmt, self.opts, input, &self.tmp, self.child_mem_mb)
         } else {
             let (v, _, m) = run_all_in_process(self.fmt, self.opts, input, &self.tmp, true);
             (v, m)
@@ -392,13 +1147,14 @@ impl Parsers {
         match v {
             Verdict::Ok => ctx.count("verdict:ok"),
             Verdict::Diag => ctx.count("verdict:diagnostic"),
-            Verdict::Panic | Verdict::Abort | Verdict::Hang => {
+            Verdict::Panic | Verdict::Abort | Verdict::Hang | Verdict::Insane => {
                 let class = known_class(self.opts, input, v, in_child, &msg);
                 let kf_case = ctx.case.strip_prefix("case kf-parser-").map(|s| s.to_string());
                 let descr = format!("{} {} opts={} input={}: {}", fmt_name(self.fmt), what, self.opts, hex_short(input), msg);
                 let sig = match v {
                     Verdict::Panic => "parser-panic",
                     Verdict::Abort => "parser-abort",
+                    Verdict::Insane => "parsed-problem-insane",
                     _ => "parser-hang",
                 };
                 match (class, kf_case) {
@@ -424,6 +1180,10 @@ impl Parsers {
                 ctx.fail("valid-file-rejected", &format!("{} opts={} input={}", fmt_name(self.fmt), self.opts, hex(input)));
                 return ("rejected".into(), None);
             }
+            Verdict::Insane => {
+                ctx.fail("parsed-problem-insane", &format!("{} valid file opts={} input={}: {}", fmt_name(self.fmt), self.opts, hex(input), msg));
+                return ("insane".into(), None);
+            }
             _ => {
                 ctx.fail("parser-panic", &format!("{} valid file opts={} input={}: {}", fmt_name(self.fmt), self.opts, hex(input), msg));
                 return ("panic".into(), None);
@@ -445,6 +1205,291 @@ impl Parsers {
             }
         }
         ("ok".into(), Some(p))
+    }
+}
+
+// ---- checking a parsed AIGER 1.9 problem against the model it was written from
+
+struct Rep {
+    head: String,
+    bad: usize,
+}
+impl Rep {
+    fn fail(&mut self, ctx: &mut Ctx, sig: &str, msg: String) {
+        self.bad += 1;
+        ctx.fail(sig, &format!("{}: {}", self.head, msg));
+    }
+}
+
+fn tt_of(c: &Circuit, l: Literal, nv: usize) -> Option<String> {
+    let mut t = String::new();
+    for asg in 0..(1u32 << nv) {
+        let mut memo = vec![0u8; c.num_gates()];
+        t.push(if eval_lit(c, l, asg, &mut memo, 0)? { '1' } else { '0' });
+    }
+    Some(t)
+}
+
+/// every literal of every section denotes the function the generator wrote there
+fn check_functions(rep: &mut Rep, ctx: &mut Ctx, sig: &str, c: &Circuit, s: &Sections, m: &A19) {
+    let nv = m.sh.i + m.sh.l;
+    let mut sec = |name: String, got: &[Literal], want: &[usize], ctx: &mut Ctx| {
+        if got.len() != want.len() {
+            rep.fail(ctx, sig, format!("{} has {} entries, {} were written", name, got.len(), want.len()));
+            return;
+        }
+        for k in 0..want.len() {
+            let e = m.tt(want[k]);
+            let g = tt_of(c, got[k], nv);
+            if g.as_deref() == Some(e.as_str()) {
+                ctx.count("aiger19: section literals with the function the generator wrote");
+            } else {
+                rep.fail(ctx, sig, format!("{}[{}] = {:?} (canonical AIGER literal {}) has the truth table {:?}, the generator's is {}", name, k, got[k], want[k], g, e));
+            }
+        }
+    };
+    let next: Vec<usize> = m.latch.iter().map(|x| x.0).collect();
+    sec("latches".into(), &s.latches, &next, ctx);
+    sec("outputs".into(), &s.outputs, &m.out, ctx);
+    sec("bad".into(), &s.bad, &m.bad, ctx);
+    sec("invariants".into(), &s.invariants, &m.inv, ctx);
+    sec("fairness".into(), &s.fairness, &m.fair, ctx);
+    if s.justice.len() != m.just.len() {
+        rep.fail(ctx, sig, format!("{} justice properties, {} were written", s.justice.len(), m.just.len()));
+    } else {
+        for (k, want) in m.just.iter().enumerate() {
+            sec(format!("justice[{}]", k), &s.justice[k], want, ctx);
+        }
+    }
+}
+
+/// `pi`: canonical variable -> variable number in the file; `mfile`: the file's maximal variable
+fn check_a19(what: &str, file: &[u8], p: &Problem, m: &A19, pi: &[usize], mfile: usize, init_all: bool, ctx: &mut Ctx) -> usize {
+    let mut rep = Rep { head: format!("{} of the model {:?}, file {}", what, m.sh, show_bytes(file)), bad: 0 };
+    let ProblemDetails::AIGER(a) = &p.details else {
+        rep.fail(ctx, "aiger19-section-wrong", "the details are not AIGER details".into());
+        return rep.bad;
+    };
+    let a: &AIGERDetails = a;
+    let s = match sections(a) {
+        Ok(s) => s,
+        Err(e) => {
+            rep.fail(ctx, "aiger19-debug-unparsable", e);
+            return rep.bad;
+        }
+    };
+    if let Err(e) = s.agrees_with_accessors(a) {
+        rep.fail(ctx, "aiger19-accessor-debug-mismatch", e);
+    }
+    let c = &p.circuit;
+    let nv = m.sh.i + m.sh.l;
+    if s.inputs != m.sh.i || c.inputs().len() != nv || c.num_gates() != m.sh.a {
+        rep.fail(ctx, "aiger19-section-wrong", format!("{} inputs, {} circuit inputs, {} gates; written: {} inputs, {} latches, {} AND gates", s.inputs, c.inputs().len(), c.num_gates(), m.sh.i, m.sh.l, m.sh.a));
+        return rep.bad;
+    }
+    check_functions(&mut rep, ctx, "aiger19-section-wrong", c, &s, m);
+
+    // names of every section and of inputs / latches
+    let want_names = [m.expected_names('o', m.sh.o), m.expected_names('b', m.sh.b), m.expected_names('c', m.sh.c), m.expected_names('j', m.sh.j.len()), m.expected_names('f', m.sh.f)];
+    for k in 0..5 {
+        let (got, want) = (&s.names[k], &want_names[k]);
+        let ok = if want.iter().all(|x| x.is_none()) { got.is_empty() || got == want } else { got == want };
+        if ok {
+            ctx.count("aiger19: names lists as written");
+        } else {
+            rep.fail(ctx, "aiger19-names-wrong", format!("names of {}: {:?}, written {:?}", SECTION_NAMES[k], got, want));
+        }
+    }
+    let mut var_names = m.expected_names('i', m.sh.i);
+    var_names.extend(m.expected_names('l', m.sh.l));
+    for (v, want) in var_names.iter().enumerate() {
+        if c.inputs().name(v) != want.as_deref() {
+            rep.fail(ctx, "aiger19-names-wrong", format!("name of circuit input {} ({}): {:?}, written {:?}", v, if v < m.sh.i { "input" } else { "latch" }, c.inputs().name(v), want));
+        }
+    }
+
+    // reset values (all of them only on request: see the kf-candidate cases)
+    let want = m.expected_init();
+    let upto = if init_all { want.len() } else { want.len().min(1) };
+    for k in 0..upto {
+        if a.latch_init_value(k) == want[k] {
+            ctx.count("aiger19: latch reset values as written");
+        } else {
+            rep.fail(ctx, "aiger19-latch-init-wrong", format!("latch_init_value({}) = {:?}, written {:?} ({:?})", k, a.latch_init_value(k), want[k], m.latch[k].1));
+        }
+    }
+
+    // the map from the numbers of the file to the circuit
+    let mut map_bad = Vec::new();
+    if a.map_aiger_literal(0) != Some(Literal::FALSE) || a.map_aiger_literal(1) != Some(Literal::TRUE) {
+        map_bad.push("literals 0 / 1 are not mapped to the constants".to_string());
+    }
+    let mut used = vec![false; mfile + 1];
+    for v in 1..=m.m() {
+        used[pi[v]] = true;
+        for neg in 0..2 {
+            let got = a.map_aiger_literal(2 * pi[v] + neg).and_then(|l| tt_of(c, l, nv));
+            if got.as_deref() != Some(m.tt(2 * v + neg).as_str()) {
+                map_bad.push(format!("map_aiger_literal({}) = {:?} has the truth table {:?}, variable {} of the model has {}", 2 * pi[v] + neg, a.map_aiger_literal(2 * pi[v] + neg), got, v, m.tt(2 * v + neg)));
+            }
+        }
+    }
+    for u in 1..=mfile {
+        if !used[u] && a.map_aiger_literal(2 * u) != Some(Literal::UNDEF) {
+            map_bad.push(format!("map_aiger_literal({}) = {:?} for a variable the file does not define", 2 * u, a.map_aiger_literal(2 * u)));
+        }
+    }
+    if a.map_aiger_literal(2 * (mfile + 1)).is_some() {
+        map_bad.push(format!("map_aiger_literal({}) is defined beyond the maximal variable {}", 2 * (mfile + 1), mfile));
+    }
+    if map_bad.is_empty() {
+        ctx.count("aiger19: literal map as written");
+    } else {
+        rep.fail(ctx, "aiger19-map-wrong", map_bad.join("; "));
+    }
+
+    // Problem::simplify keeps every section's functions (checked when they were right before)
+    if rep.bad > 0 {
+        return rep.bad;
+    }
+    match catch_unwind(AssertUnwindSafe(|| p.simplify())) {
+        Ok(Ok((q, _))) => match &q.details {
+            ProblemDetails::AIGER(qa) => match sections(qa) {
+                Ok(qs) => {
+                    let before = rep.bad;
+                    check_functions(&mut rep, ctx, "simplified-function-wrong", &q.circuit, &qs, m);
+                    if rep.bad == before {
+                        ctx.count("aiger19: all sections keep their functions under Problem::simplify");
+                    }
+                }
+                Err(e) => rep.fail(ctx, "aiger19-debug-unparsable", format!("after simplify: {}", e)),
+            },
+            _ => rep.fail(ctx, "simplified-function-wrong", "the details are not AIGER details after simplify".into()),
+        },
+        Ok(Err(l)) => rep.fail(ctx, "simplify-error-on-valid-file", format!("simplify returned Err({:?})", l)),
+        Err(e) => rep.fail(ctx, "simplify-panic", format!("simplify panicked: {}", panic_msg(&e))),
+    }
+    rep.bad
+}
+
+fn parse_shape(w: &[&str]) -> Option<Shape> {
+    let n = |k: usize| w.get(k)?.parse::<usize>().ok();
+    let j: Vec<usize> = if *w.get(6)? == "-" { Vec::new() } else { w[6].split(',').map(|x| x.parse::<usize>().ok()).collect::<Option<Vec<_>>>()? };
+    let sh = Shape { i: n(0)?, l: n(1)?, a: n(2)?, o: n(3)?, b: n(4)?, c: n(5)?, j, f: n(7)?, sym: n(8)? as u32 };
+    // (truth tables over inputs + latches; the sizes are bounded so that one line stays cheap)
+    if sh.i + sh.l > 10 || sh.a > 64 || sh.o + sh.b + sh.c + sh.f + sh.j.len() + sh.j.iter().sum::<usize>() > 200 {
+        return None;
+    }
+    Some(sh)
+}
+fn shape_words(sh: &Shape) -> String {
+    let j = if sh.j.is_empty() { "-".to_string() } else { sh.j.iter().map(|x| x.to_string()).collect::<Vec<_>>().join(",") };
+    format!("{} {} {} {} {} {} {} {} {}", sh.i, sh.l, sh.a, sh.o, sh.b, sh.c, j, sh.f, sh.sym)
+}
+
+impl Parsers {
+    /// `aig19 <seed> <I> <L> <A> <O> <B> <C> <J sizes|-> <F> <symbols> <first|all>`
+    fn aig19(&mut self, seed: u64, sh: &Shape, init_all: bool, ctx: &mut Ctx) -> String {
+        let m = A19::build(seed, sh);
+        let mut rng = Rng::new(seed ^ 0x5eed_f11e);
+        let (aag, pi1, m1) = m.render_aag(&mut rng, false);
+        let (aag2, pi2, m2) = m.render_aag(&mut rng, true);
+        let aig = m.render_aig(&mut rng);
+        self.fmt = Fmt::Aiger;
+        self.opts = 0;
+        self.base = aag.clone();
+        self.base2 = aig.clone();
+
+        // what the generated problems cover
+        ctx.count("aiger19: problems");
+        let jl: usize = sh.j.iter().sum();
+        for (n, k) in [("outputs", sh.o), ("bad", sh.b), ("constraints", sh.c), ("justice properties", sh.j.len()), ("fairness", sh.f), ("latches", sh.l), ("inputs", sh.i), ("AND gates", sh.a)] {
+            ctx.count(&format!("aiger19: {} {}", k, n));
+        }
+        if sh.f > jl {
+            ctx.count("aiger19: more fairness constraints than justice literals");
+        }
+        if sh.f > 0 && jl > 0 && sh.f <= jl {
+            ctx.count("aiger19: fairness constraints, at most as many as justice literals");
+        }
+        if sh.j.iter().any(|&n| n == 0) {
+            ctx.count("aiger19: an empty justice property");
+        }
+        if sh.j.iter().any(|&n| n != sh.j[0]) {
+            ctx.count("aiger19: justice properties of different sizes");
+        }
+        for (_, r) in &m.latch {
+            ctx.count(&format!("aiger19: latch reset {:?}", r));
+        }
+        for kind in ['i', 'l', 'o', 'b', 'c', 'j', 'f'] {
+            if m.syms.iter().any(|x| x.0 == kind) {
+                ctx.count(&format!("aiger19: problems with {} symbols", kind));
+            }
+        }
+        if m.comment.is_some() {
+            ctx.count("aiger19: problems with a comment section");
+        }
+
+        let mut parsed: Vec<Option<Problem>> = Vec::new();
+        let mut res = String::new();
+        for (what, file, pi, mfile) in [("aag", &aag, &pi1, m1), ("aag-renumbered", &aag2, &pi2, m2), ("aig", &aig, &pi1, m1)] {
+            ctx.count(&format!("aiger19: files {}", what));
+            let (v, p, msg) = run_all_in_process(Fmt::Aiger, 0, file, &self.tmp, true);
+            let r = match v {
+                Verdict::Ok => {
+                    let p = p.unwrap();
+                    let r = match catch_unwind(AssertUnwindSafe(|| check_a19(what, file, &p, &m, pi, mfile, init_all, ctx))) {
+                        Ok(0) => "ok",
+                        Ok(_) => "wrong",
+                        Err(e) => {
+                            ctx.fail("aiger19-check-panic", &format!("{} of the model {:?}, file {}: panic while reading the parsed problem: {}", what, sh, show_bytes(file), panic_msg(&e)));
+                            "panic"
+                        }
+                    };
+                    parsed.push(Some(p));
+                    r
+                }
+                Verdict::Diag => {
+                    ctx.fail("valid-file-rejected", &format!("aiger {} of the model {:?}, file {}", what, sh, show_bytes(file)));
+                    parsed.push(None);
+                    "rejected"
+                }
+                Verdict::Insane => {
+                    ctx.fail("parsed-problem-insane", &format!("aiger {} of the model {:?}, file {}: {}", what, sh, show_bytes(file), msg));
+                    parsed.push(None);
+                    "insane"
+                }
+                _ => {
+                    ctx.fail("parser-panic", &format!("aiger {} of the model {:?}, valid file {}: {}", what, sh, show_bytes(file), msg));
+                    parsed.push(None);
+                    "panic"
+                }
+            };
+            res.push_str(&format!("{}={} ", what, r));
+        }
+        if let (Some(p1), Some(p3)) = (&parsed[0], &parsed[2]) {
+            if p1 == p3 {
+                ctx.count("ASCII and binary AIGER parse to the same problem");
+                res.push_str("same");
+            } else {
+                let d = match (&p1.details, &p3.details) {
+                    (ProblemDetails::AIGER(x), ProblemDetails::AIGER(y)) => match (sections(x), sections(y)) {
+                        (Ok(x), Ok(y)) => {
+                            let mut d = x.diff(&y);
+                            if p1.circuit != p3.circuit {
+                                d.push("circuit");
+                            }
+                            format!("differing: {}", d.join(", "))
+                        }
+                        _ => "?".into(),
+                    },
+                    _ => "?".into(),
+                };
+                ctx.fail("aag-aig-differ", &format!("model {:?} [{}] aag={} aig={}: {:?} vs {:?}", sh, d, show_bytes(&aag), show_bytes(&aig), p1, p3));
+                res.push_str("differ");
+            }
+        }
+        res.trim_end().to_string()
     }
 }
 
@@ -528,6 +1573,8 @@ impl Scenario for Parsers {
     fn reset(&mut self) {
         self.base.clear();
         self.base2.clear();
+        self.force_child = false;
+        self.child_mem_mb = CHILD_MEM_MB;
     }
     fn step(&mut self, line: &str, ctx: &mut Ctx) -> String {
         let w = words(line);
@@ -606,6 +1653,81 @@ impl Scenario for Parsers {
                 self.base = bytes;
                 format!("{:?}", self.check("raw input", &self.base.clone(), ctx))
             }
+            ["aig19", seed, rest @ ..] if rest.len() == 10 => {
+                let (Ok(seed), Some(sh)) = (seed.parse::<u64>(), parse_shape(rest)) else {
+                    return "bad-op".into();
+                };
+                self.aig19(seed, &sh, rest[9] == "all", ctx)
+            }
+            ["bnd", fmt, opts, hx] => {
+                // a valid file with one numeric field replaced by a boundary value
+                let (Some(fmt), Ok(opts), Some(bytes)) = (fmt_of(fmt), opts.parse::<u32>(), unhex(hx)) else {
+                    return "bad-op".into();
+                };
+                self.fmt = fmt;
+                self.opts = opts;
+                self.base = bytes;
+                // (the numbers matter here, not the memory: a smaller address space makes the
+                // allocations sized by a number of the file fail faster)
+                self.child_mem_mb = BOUNDS_CHILD_MEM_MB;
+                let v = self.check("boundary value", &self.base.clone(), ctx);
+                self.child_mem_mb = CHILD_MEM_MB;
+                ctx.count(&format!("boundary inputs:{}", fmt_name(fmt)));
+                ctx.count(&format!("boundary inputs:{} {:?}", fmt_name(fmt), v));
+                format!("{:?}", v)
+            }
+            ["latchinit", hx, want] => {
+                // reset values of all latches through the accessor; want = one of 0 1 - per latch
+                let Some(bytes) = unhex(hx) else {
+                    return "bad-op".into();
+                };
+                let p = match catch_unwind(AssertUnwindSafe(|| parse_plain(Fmt::Aiger, 0, &bytes))) {
+                    Ok(Some(p)) => p,
+                    Ok(None) => {
+                        ctx.fail("valid-file-rejected", &format!("aiger input={}", show_bytes(&bytes)));
+                        return "rejected".into();
+                    }
+                    Err(e) => {
+                        ctx.fail("parser-panic", &format!("aiger valid file input={}: {}", show_bytes(&bytes), panic_msg(&e)));
+                        return "panic".into();
+                    }
+                };
+                let ProblemDetails::AIGER(a) = &p.details else {
+                    return "bad-op".into();
+                };
+                let mut got = String::new();
+                for k in 0..a.latches().len() {
+                    match catch_unwind(AssertUnwindSafe(|| a.latch_init_value(k))) {
+                        Ok(Some(false)) => got.push('0'),
+                        Ok(Some(true)) => got.push('1'),
+                        Ok(None) => got.push('-'),
+                        Err(e) => {
+                            ctx.fail("aiger-accessor-panic", &format!("latch_init_value({}) of the {} latches of {}: {}", k, a.latches().len(), show_bytes(&bytes), panic_msg(&e)));
+                            got.push('!');
+                        }
+                    }
+                }
+                if got != *want && !got.contains('!') {
+                    ctx.fail("aiger-latch-init-wrong", &format!("latch reset values of {}: latch_init_value gives {} but the file says {}", show_bytes(&bytes), got, want));
+                }
+                got
+            }
+            ["dbgfmt", hx] => {
+                let Some(bytes) = unhex(hx) else {
+                    return "bad-op".into();
+                };
+                let Ok(Some(p)) = catch_unwind(AssertUnwindSafe(|| parse_plain(Fmt::Aiger, 0, &bytes))) else {
+                    ctx.fail("valid-file-rejected", &format!("aiger input={}", show_bytes(&bytes)));
+                    return "rejected".into();
+                };
+                match catch_unwind(AssertUnwindSafe(|| format!("{:?}", p).len())) {
+                    Ok(_) => "ok".into(),
+                    Err(e) => {
+                        ctx.fail("problem-debug-panic", &format!("formatting the problem parsed from {} with {{:?}}: {}", show_bytes(&bytes), panic_msg(&e)));
+                        "panic".into()
+                    }
+                }
+            }
             ["big", fmt, opts, kind, n] => {
                 // generated on the fly (too long for an operation line): deep nesting
                 let (Some(fmt), Ok(opts), Ok(n)) = (fmt_of(fmt), opts.parse::<u32>(), n.parse::<usize>()) else {
@@ -639,6 +1761,27 @@ impl Scenario for Parsers {
                         v.extend_from_slice(b"\np cnf 1 1\n1 0\n");
                         v
                     }
+                    "aag-chain" => {
+                        // n AND gates, each defined by the next one (forward references): a chain
+                        // of depth n; parsed in a child process
+                        self.force_child = true;
+                        let mut v = format!("aag {} 1 0 1 {}\n2\n4\n", n + 1, n).into_bytes();
+                        for k in 0..n {
+                            let var = k + 2;
+                            let next = if k + 1 < n { 2 * (var + 1) } else { 2 };
+                            v.extend_from_slice(format!("{} {} 2\n", 2 * var, next).as_bytes());
+                        }
+                        v
+                    }
+                    "nnf-chain" => {
+                        self.force_child = true;
+                        let mut v = format!("nnf {} {} 1\n", n + 1, n).into_bytes();
+                        for k in 0..n {
+                            v.extend_from_slice(format!("A 1 {}\n", k + 1).as_bytes());
+                        }
+                        v.extend_from_slice(b"L 1\n");
+                        v
+                    }
                     "cnf-long" => {
                         let mut v = format!("p cnf 3 {}\n", n).into_bytes();
                         for k in 0..n {
@@ -650,6 +1793,7 @@ impl Scenario for Parsers {
                 };
                 self.base = input;
                 let v = self.check(&format!("{} n={}", kind, n), &self.base.clone(), ctx);
+                self.force_child = false;
                 format!("{:?}", v)
             }
             _ => "bad-op".into(),
@@ -1080,6 +2224,131 @@ fn gen_aiger_pair(rng: &mut Rng) -> (Vec<u8>, Vec<u8>, usize, String) {
     (aag.into_bytes(), aig, nv, tt)
 }
 
+// ------------------------------------------------------------------ boundary values in numeric fields
+
+/// in both tiers, for every field
+const BOUNDS_CORE: &[&str] = &[
+    "0", "1", "-1",
+    "2147483647", "2147483648", "-2147483648", "-2147483649",
+    "4294967295", "4294967296",
+    "9223372036854775807", "9223372036854775808", "-9223372036854775808", "-9223372036854775809",
+    "18446744073709551615", "18446744073709551616",
+    "1152921504606846975", "1152921504606846976", // usize::MAX / 16: the largest count the parsers take
+    "123456789012345678901234567890",
+    "007", "+1", "-0",
+];
+/// thorough: all of them for every field; quick: a seeded sample of four per field
+const BOUNDS_EXTRA: &[&str] = &[
+    "2", "-2", "255", "256", "65535", "65536", "16777216",
+    "2147483646", "-2147483647", "4294967294", "4294967297",
+    "9223372036854775806", "-9223372036854775807", "+9223372036854775807",
+    "18446744073709551614", "18446744073709551617", "-18446744073709551615", "-18446744073709551616",
+    "1152921504606846974", "2305843009213693951", "2305843009213693952",
+    // around Literal::MAX_INPUT = 2^62 - 3
+    "4611686018427387901", "4611686018427387902", "4611686018427387903", "4611686018427387904",
+    "999999999999999999999999999999", "-999999999999999999999999999999", "340282366920938463463374607431768211456",
+    "00000000000000000000000000000001", "0000000000000000000000000000000", "+0", "--1", "-+1", "+-1", "0x10", "1e3", "1.0", "",
+];
+
+/// Valid files in which every numeric field is wrapped in `<…>`; a field written `<=…>` belongs to
+/// the group of fields that are replaced together (a count and the literal that has to stay below
+/// it).  (name, format, options, text)
+const BOUND_TEMPLATES: &[(&str, &str, u32, &[u8])] = &[
+    ("cnf-order-tree", "dimacs", 3, b"c <1> x\nc <2>\nc co [<0>, [<1>]]\np cnf <2> <2>\n<1> <-2> <0>\nx <2> <0>\n"),
+    ("cnf-vo", "dimacs", 1, b"c vo [<2>, [<1>, <3>]]\np cnf <3> <1>\n<1> <2> <-3> <0>\n"),
+    ("cnf-plain", "dimacs", 0, b"c comment <5>\np cnf <3> <2>\n<1> <-3> <0>\n<2> <3>\n"),
+    ("cnf-coupled", "dimacs", 0, b"p cnf <=3> 1\n-<=3> 0\n"),
+    ("sat", "dimacs", 0, b"p satex <3>\n*(+(<1> <-2>) xor(<3>) =(<1> <2>))\n"),
+    ("sat-order", "dimacs", 1, b"c <2> b\nc <1> a\np sat <2>\n+(<1> <2>)\n"),
+    ("nnf", "nnf", 0, b"nnf <7> <7> <2>\nL <1>\nL <-2>\nA <2> <0> <1>\nO <1> <2> <0> <1>\nX <1> <2>\nA <0>\nO <0> <3> <3> <4> <5>\n"),
+    ("nnf-order", "nnf", 1, b"c <1> a\nc <2>\nnnf <1> <0> <2>\nL <2>\n"),
+    ("nnf-vo", "nnf", 1, b"c vo [<2>, <1>]\nnnf <2> <1> <2>\nL <-1>\nA <1> <0>\n"),
+    ("nnf-coupled", "nnf", 0, b"nnf 2 0 <=2>\nL <=2>\nL -<=2>\n"),
+    (
+        "aag",
+        "aiger",
+        0,
+        b"aag <7> <2> <1> <1> <3> <1> <1> <1> <1>\n<2>\n<4>\n<6> <10> <1>\n<12>\n<3>\n<5>\n<2>\n<6>\n<7>\n<13>\n<8> <2> <4>\n<10> <8> <6>\n<12> <11> <3>\ni<0> a\nl<0> b\no<0> c\nb<0> d\nc<0> e\nj<0> f\nf<0> g\nc\ncomment\n",
+    ),
+    (
+        "aig",
+        "aiger",
+        0,
+        b"aig <6> <2> <1> <1> <3> <1> <1> <1> <1>\n<10> <1>\n<12>\n<3>\n<5>\n<2>\n<6>\n<7>\n<13>\n\x04\x02\x02\x02\x01\x08i<0> a\nl<0> b\no<0> c\nb<0> d\nc<0> e\nj<0> f\nf<0> g\nc\ncomment\n",
+    ),
+    ("aag-latch-own", "aiger", 0, b"aag <2> <0> <2> <0> <0>\n<2> <4> <2>\n<4> <3> <4>\n"),
+    ("aig-latch-own", "aiger", 0, b"aig <2> <0> <2> <0> <0>\n<4> <2>\n<3> <4>\n"),
+];
+
+/// pieces between the fields, and the fields (original text, grouped?)
+fn template_fields(t: &[u8]) -> (Vec<Vec<u8>>, Vec<(Vec<u8>, bool)>) {
+    let mut pieces = vec![Vec::new()];
+    let mut fields = Vec::new();
+    let mut k = 0;
+    while k < t.len() {
+        if t[k] == b'<' {
+            let e = k + t[k..].iter().position(|&c| c == b'>').expect("unterminated field");
+            let inner = &t[k + 1..e];
+            let grouped = inner.first() == Some(&b'=');
+            fields.push((if grouped { inner[1..].to_vec() } else { inner.to_vec() }, grouped));
+            pieces.push(Vec::new());
+            k = e + 1;
+        } else {
+            pieces.last_mut().unwrap().push(t[k]);
+            k += 1;
+        }
+    }
+    (pieces, fields)
+}
+/// the template with the chosen fields replaced by `val` (`None`: the valid file itself)
+fn instantiate(pieces: &[Vec<u8>], fields: &[(Vec<u8>, bool)], which: Option<&dyn Fn(usize) -> bool>, val: &[u8]) -> Vec<u8> {
+    let mut out = pieces[0].clone();
+    for (k, f) in fields.iter().enumerate() {
+        if which.map_or(false, |w| w(k)) {
+            out.extend_from_slice(val);
+        } else {
+            out.extend_from_slice(&f.0);
+        }
+        out.extend_from_slice(&pieces[k + 1]);
+    }
+    out
+}
+
+/// 7-bit encodings of boundary values, over-long and truncated ones (binary AIGER deltas)
+fn varint_bounds() -> Vec<Vec<u8>> {
+    let mut v: Vec<Vec<u8>> = Vec::new();
+    for x in [0u128, 1, 2, 3, 5, 6, 7, 8, 9, 127, 128, 16383, 16384, (1 << 31) - 1, 1 << 31, (1 << 32) - 1, 1 << 32, (1 << 63) - 1, 1 << 63, (1 << 64) - 1, 1 << 64, (1 << 70) + 2] {
+        let mut e = Vec::new();
+        let mut x = x;
+        loop {
+            let b = (x & 127) as u8;
+            x >>= 7;
+            if x == 0 {
+                e.push(b);
+                break;
+            }
+            e.push(b | 128);
+        }
+        v.push(e);
+    }
+    // over-long encodings of 0, 2 and 4
+    v.push(vec![0x80, 0x00]);
+    v.push(vec![0x82, 0x00]);
+    v.push(vec![0x82, 0x80, 0x80, 0x80, 0x80, 0x00]);
+    v.push(vec![0x84, 0x80, 0x80, 0x80, 0x80, 0x80, 0x80, 0x80, 0x80, 0x80, 0x80, 0x80, 0x00]);
+    // ten and more bytes with bits beyond the 64th
+    v.push([vec![0xff; 9], vec![0x7f]].concat());
+    v.push([vec![0x80; 10], vec![0x01]].concat());
+    v.push([vec![0xff; 10], vec![0x01]].concat());
+    v.push([vec![0x80; 9], vec![0x04]].concat());
+    v.push([vec![0x80; 20], vec![0x02]].concat());
+    v.push([vec![0x80; 300], vec![0x01]].concat());
+    // truncated: continuation bit without a next byte (swallows what follows)
+    v.push(vec![0x80]);
+    v.push(vec![0xff, 0xff]);
+    v
+}
+
 fn generate(cfg: &GenCfg, rng: &mut Rng, w: &mut dyn Write) {
     let scale = cfg.scale.max(1);
     let (files, muts) = if cfg.thorough { (200 * scale, 360) } else { (36 * scale, 120) };
@@ -1174,6 +2443,105 @@ fn generate(cfg: &GenCfg, rng: &mut Rng, w: &mut dyn Write) {
         writeln!(w, "big {} {} {} {}", fmt, opts, kind, n).unwrap();
     }
 
+    // ---- AIGER 1.9: structured problems, each as aag, renumbered aag and aig
+    {
+        let jpats: &[&[usize]] = &[&[], &[0], &[1], &[2], &[0, 0], &[1, 0, 3], &[5], &[2, 1], &[0, 2, 0], &[3, 3], &[1, 1, 1, 1, 1]];
+        let sizes = [0usize, 1, 2, 5];
+        let ands = [0usize, 1, 2, 5, 9];
+        // (o, b, c, j, f; None = chosen at random)
+        let mut shapes: Vec<(Option<usize>, Option<usize>, Option<usize>, Vec<usize>, usize)> = Vec::new();
+        // every justice shape with every number of fairness constraints (more fairness constraints
+        // than justice literals, fewer, none of either), the other sections at random
+        for jp in jpats {
+            for f in sizes {
+                shapes.push((None, None, None, jp.to_vec(), f));
+            }
+        }
+        // one section alone, in every size
+        for sec in 0..4 {
+            for n in sizes {
+                let pick = |k: usize| Some(if k == sec { n } else { 0 });
+                shapes.push((pick(0), pick(1), pick(2), Vec::new(), if sec == 3 { n } else { 0 }));
+            }
+        }
+        let random = if cfg.thorough { 1100 * scale } else { 100 * scale };
+        for _ in 0..random {
+            let j = if rng.chance(1, 3) { Vec::new() } else { (0..rng.range(1, 4)).map(|_| *rng.pick(&[0usize, 1, 1, 2, 3, 5])).collect() };
+            shapes.push((None, None, None, j, *rng.pick(&sizes)));
+        }
+        for (n, (o, b, c, j, f)) in shapes.into_iter().enumerate() {
+            let i = rng.below(5) as usize;
+            let l = (rng.below(4) as usize).min(6 - i);
+            let sh = Shape {
+                i,
+                l: if n % 7 == 3 { 3.min(6 - i) } else { l },
+                a: *rng.pick(&ands),
+                o: o.unwrap_or_else(|| *rng.pick(&sizes)),
+                b: b.unwrap_or_else(|| *rng.pick(&sizes)),
+                c: c.unwrap_or_else(|| *rng.pick(&sizes)),
+                j,
+                f,
+                sym: match rng.below(4) { 0 => 0, 1 | 2 => 1, _ => 2 },
+            };
+            case += 1;
+            writeln!(w, "case aiger19 {}", case).unwrap();
+            writeln!(w, "aig19 {} {} first", rng.next() % 1_000_000_000, shape_words(&sh)).unwrap();
+            if n % (if cfg.thorough { 20 } else { 8 }) == 0 {
+                // prefixes and mutations of the ASCII file, then of the binary one
+                let k = if cfg.thorough { muts / 3 } else { muts / 2 };
+                writeln!(w, "truncall").unwrap();
+                writeln!(w, "muts {} {}", rng.next() % 1_000_000, k).unwrap();
+                writeln!(w, "usebase 2").unwrap();
+                writeln!(w, "truncall").unwrap();
+                writeln!(w, "muts {} {}", rng.next() % 1_000_000, k).unwrap();
+            }
+        }
+    }
+
+    // ---- boundary values in every numeric field of otherwise valid files
+    for (name, fmt, opts, text) in BOUND_TEMPLATES {
+        let (pieces, fields) = template_fields(text);
+        writeln!(w, "case bounds {} template", name).unwrap();
+        writeln!(w, "file {} {} 0 - {}", fmt, opts, hex(&instantiate(&pieces, &fields, None, b""))).unwrap();
+        // every single field, and the group of coupled fields as one more
+        let grouped: Vec<usize> = (0..fields.len()).filter(|&k| fields[k].1).collect();
+        let mut targets: Vec<Vec<usize>> = (0..fields.len()).filter(|&k| !fields[k].1).map(|k| vec![k]).collect();
+        if !grouped.is_empty() {
+            targets.push(grouped);
+        }
+        for t in targets {
+            writeln!(w, "case bounds {} field {}", name, t.iter().map(|k| k.to_string()).collect::<Vec<_>>().join("+")).unwrap();
+            let mut vals: Vec<&str> = BOUNDS_CORE.to_vec();
+            if cfg.thorough {
+                vals.extend_from_slice(BOUNDS_EXTRA);
+            } else {
+                for _ in 0..4 {
+                    vals.push(*rng.pick(BOUNDS_EXTRA));
+                }
+            }
+            for v in vals {
+                let input = instantiate(&pieces, &fields, Some(&|k| t.contains(&k)), v.as_bytes());
+                writeln!(w, "bnd {} {} {}", fmt, opts, hex(&input)).unwrap();
+            }
+        }
+    }
+    // binary AIGER: the four deltas of two AND gates (6 = 4 & 2, 8 = 6 & 3)
+    for d in 0..4 {
+        writeln!(w, "case bounds aig-delta field {}", d).unwrap();
+        for e in varint_bounds() {
+            let mut input = b"aig 4 2 0 1 2\n8\n".to_vec();
+            for (k, orig) in [2u8, 2, 2, 3].iter().enumerate() {
+                if k == d {
+                    input.extend_from_slice(&e);
+                } else {
+                    input.push(*orig);
+                }
+            }
+            input.extend_from_slice(b"o0 out\n");
+            writeln!(w, "bnd aiger 0 {}", hex(&input)).unwrap();
+        }
+    }
+
     // ---- listed known findings: one dedicated, deterministic case per class (both tiers)
     // (1) memory reserved by a number of the input: allocation failure abort / capacity overflow
     writeln!(w, "case kf-parser-alloc").unwrap();
@@ -1220,6 +2588,33 @@ fn generate(cfg: &GenCfg, rng: &mut Rng, w: &mut dyn Write) {
     for (opts, kind) in [(0, "sat-parens"), (0, "sat-neg"), (1, "tree")] {
         writeln!(w, "big dimacs {} {} 400000", opts, kind).unwrap();
     }
+    // ---- candidates for new findings: only with `gen --kf-candidates 1`
+    if cfg.extra.get("kf-candidates").map(|s| s.as_str()) == Some("1") {
+        // TVBitVec (latch reset values) keeps everything in its first block and reads element i at
+        // bits i, i+1 instead of 2i, 2i+1: values of latch 1.. are wrong, index 16 is out of bounds
+        writeln!(w, "case kf-candidate-latch-init-values").unwrap();
+        writeln!(w, "latchinit {} 00", hex(b"aag 2 0 2 0 0\n2 0\n4 0\n")).unwrap();
+        writeln!(w, "latchinit {} 00", hex(b"aig 2 0 2 0 0\n0\n0\n")).unwrap();
+        writeln!(w, "latchinit {} -1", hex(b"aag 2 0 2 0 0\n2 0 2\n4 0 1\n")).unwrap();
+        writeln!(w, "latchinit {} 100", hex(b"aag 3 0 3 0 0\n2 0 1\n4 0 0\n6 0 0\n")).unwrap();
+        writeln!(w, "latchinit {} 0-1", hex(b"aig 3 0 3 0 0\n0\n0 4\n0 1\n")).unwrap();
+        for k in 0..6 {
+            let sh = Shape { i: k % 3, l: 2 + k % 2, a: 2, o: 1, b: 0, c: 0, j: Vec::new(), f: 0, sym: 0 };
+            writeln!(w, "aig19 {} {} all", 1000 + k, shape_words(&sh)).unwrap();
+        }
+        writeln!(w, "case kf-candidate-latch-init-17").unwrap();
+        let mut t = String::from("aag 17 0 17 0 0\n");
+        for k in 0..17 {
+            t.push_str(&format!("{} 0\n", 2 * (k + 1)));
+        }
+        writeln!(w, "latchinit {} {}", hex(t.as_bytes()), "0".repeat(17)).unwrap();
+        writeln!(w, "dbgfmt {}", hex(t.as_bytes())).unwrap();
+    }
+    // Known finding KF-parser-deep-chain: Circuit::find_cycle (check_acyclic, on by default) recurses
+    // along the gates: a chain of AND gates written with forward references overflows the stack
+    writeln!(w, "case kf-parser-deep-chain").unwrap();
+    writeln!(w, "big aiger 0 aag-chain 300000").unwrap();
+    writeln!(w, "big nnf 0 nnf-chain 300000").unwrap();
     let _ = case;
 }
 
@@ -1236,7 +2631,7 @@ fn make(_f: &BTreeMap<String, String>) -> Box<dyn Scenario> {
     }
     let tmp = std::env::temp_dir().join(format!("c18_parsers_{}", std::process::id()));
     let _ = std::fs::create_dir_all(&tmp);
-    Box::new(Parsers { base: Vec::new(), base2: Vec::new(), fmt: Fmt::Dimacs, opts: 0, tmp })
+    Box::new(Parsers { base: Vec::new(), base2: Vec::new(), fmt: Fmt::Dimacs, opts: 0, tmp, force_child: false, child_mem_mb: CHILD_MEM_MB })
 }
 
 fn main() {
